@@ -92,13 +92,16 @@ HookChainOK(k, d, c) ==
         /\ Bodies(A) = app /\ AllMarked(A)
         /\ \A i \in 1..Len(F) : ~OwnedRule(F[i])
 
-ChainAtTarget(k, d, c) ==
+\* (R = Ref(d), passed down so that the recursive reachability is computed once)
+ChainAtTargetR(k, d, c, R) ==
     IF c \in cfg.kchains THEN c \in DOMAIN k /\ HookChainOK(k, d, c)
-    ELSE IF OurChain(c) THEN c \in Ref(d) /\ FelixChainOK(k, d, c)
+    ELSE IF OurChain(c) THEN c \in R /\ FelixChainOK(k, d, c)
     ELSE c \in DOMAIN k /\ HookChainOK(k, d, c)
+ChainAtTarget(k, d, c) == ChainAtTargetR(k, d, c, Ref(d))
 
 Converged(k, d) ==
-    /\ \A c \in Ref(d) : FelixChainOK(k, d, c)
+    LET R == Ref(d) IN
+    /\ \A c \in R : FelixChainOK(k, d, c)
     /\ \A c \in DOMAIN k :
           IF c \in cfg.kchains THEN HookChainOK(k, d, c)
           ELSE IF OurChain(c) THEN c \in DOMAIN d.chains /\ FelixChainOK(k, d, c)   \* no stale chain
@@ -111,14 +114,16 @@ ForeignSame(k1, k2) ==
     /\ \A c \in ForeignChains(k1) : ForeignRules(k1[c]) = ForeignRules(k2[c])
 
 Minimal(k, d, touched) ==
-    \A c \in touched : ~(c \in DOMAIN k /\ Len(k[c]) > 0 /\ <<c, k[c]>> \in known /\ ChainAtTarget(k, d, c))
+    LET R == Ref(d) IN
+    \A c \in touched : ~(c \in DOMAIN k /\ Len(k[c]) > 0 /\ <<c, k[c]>> \in known /\ ChainAtTargetR(k, d, c, R))
 
 \* constructive witness of Converged /\ ForeignSame (used by the generator and checked in the design leg)
 Mark(s) == [i \in 1..Len(s) |-> [h |-> "F", id |-> s[i].id, tgt |-> s[i].tgt]]
 Target(k, d) ==
-    LET keep == { c \in DOMAIN k : c \in cfg.kchains \/ ~OurChain(c) }
+    LET R == Ref(d)
+        keep == { c \in DOMAIN k : c \in cfg.kchains \/ ~OurChain(c) }
                 \cup (IF cfg.ownsAll THEN cfg.kchains ELSE { c \in cfg.kchains : Len(d.ins[c]) + Len(d.app[c]) > 0 })
-                \cup Ref(d)
+                \cup R
     IN  [c \in keep |->
            IF c \in cfg.kchains \/ ~OurChain(c)
              THEN LET f == ForeignRules(Get(k, c)) IN
